@@ -72,11 +72,13 @@ class HasAccessibles(HasProperties):
         merged_properties = {}  # dict of dict of merged properties
         new_names = []  # list of names of new accessibles
         override_values = {}  # bare values overriding a parameter and methods overriding a command
+        contributors = {}  # dict of lists of classes contributing properties
 
         for base in reversed(cls.__mro__):
             for key, value in base.__dict__.items():
                 if isinstance(value, Accessible):
                     value.updateProperties(merged_properties.setdefault(key, {}))
+                    contributors.setdefault(key, []).append(base)
                     if base == cls and key not in accessibles and key not in PREDEFINED_ACCESSIBLES:
                         new_names.append(key)
                     accessibles[key] = value
@@ -94,6 +96,13 @@ class HasAccessibles(HasProperties):
                 # replace the bare value by the created accessible
                 setattr(cls, aname, aobj)
             else:
+                owner = contributors[aname][-1]
+                if not all(issubclass(owner, base) for base in contributors[aname]):
+                    # multiple inheritance: properties from a branch the owner of the
+                    # accessible does not inherit from must not be merged into the
+                    # owner's accessible -> cls gets an accessible of its own
+                    aobj = aobj.copy()
+                    setattr(cls, aname, aobj)
                 aobj.merge(merged_properties[aname])
             accessibles[aname] = aobj
 
